@@ -22,7 +22,7 @@ FLAG_FIELDS = ['useExtendedMasterSecret', 'requireExtendedMasterSecret', 'useExp
                'sendFallbackSCSV', 'useEncryptThenMAC', 'usePaddingExtension', 'use_heartbeat_extension']
 INT_FIELDS = ['ticketLifetime', 'max_early_data', 'ticket_count', 'dc_valid_time', 'minKeySize', 'maxKeySize']
 # the order in which validate() (and the model) creates new list objects
-ALLOC_ORDER = ['versions', 'macNames', 'cipherNames']
+ALLOC_ORDER = ['versions', 'macNames', 'cipherImplementations', 'cipherNames']
 EXC = {'IndexError': 1, 'ValueError': 2, 'AssertionError': 3, 'AttributeError': 4, 'TypeError': 5, 'KeyError': 6}
 
 
